@@ -32,4 +32,122 @@ PROPS = {
         "assumptions": ["binary search on the sorted Vec selects the position of the model's list walk (compared on every run)",
                         "offsets < 2^64 so that u64 arithmetic does not wrap (segments are (offset, offset+len) of received PDUs)"],
     },
+    "C14": {
+        "props_files": ["C14"],
+        "theorems": ["C14_all_chunkings", "C14_until_eof", "C14_null", "C14_modular", "C14_single_byte_change",
+                     "C14_agree_iff_same", "C14_range"],
+        "components": ["checksum"],
+        "rule": "cases = one file content with several checksum calls (K: real File / Cursor / a Read+Seek adaptor returning scripted "
+                "short reads; D: a pair of contents, identical or differing in one byte, read with two different chunkings); every length "
+                "0..70 x 3 contents x every constant read size 1..9 + random sizes; lengths within 5 of 8192/16384 (thorough: up to 40960) "
+                "with read sizes 8191/8192/8193/4097/mixed; random contents up to 40 KiB with mixed read sizes, 20% adversarial (early "
+                "end-of-file reads, all-0xff / carry-propagating contents); bounded exhaustive: every chunking of every length <= 11 "
+                "(thorough 14) into reads of 1..5 bytes; non-trivial = at least 2 operations; distinct = distinct op-list text",
+        "explanation": "Theorems over Model/Checksum.v for all chunk lists and all contents (induction four bytes at a time, unbounded N "
+                       "with the mod 2^32 written explicitly); model tied to filestore.rs by differential execution of the extracted model "
+                       "and the real FileChecksum::checksum on files, cursors and a short-reading reader whose observed read sizes are "
+                       "compared too; oracle = naive padded big-endian word sum on the implementation's outputs.",
+        "level_text": "Full proof on the model: for every list of non-empty buffers handed out by the reader (any chunking, any total length "
+                      "including 0 and non-multiples of 4) the buffer-by-buffer computation equals the CCSDS definition (zero-pad to a multiple "
+                      "of 4, big-endian words, sum mod 2^32); Null is 0; two equal-length contents differing in exactly one byte have different "
+                      "checksums, hence readers with different chunkings agree on identical data and disagree after a one-byte change. The model "
+                      "is tied to filestore.rs by differential execution with scripted short reads, boundary lengths and bounded-exhaustive "
+                      "chunkings. This is the right level because the property quantifies over all contents and all chunkings of a pure function.",
+        "level_note": "Trusted: Coq kernel; extraction (ExtrOcamlBasic); OCaml driver and Rust harness printing; BufReader semantics (one read "
+                      "call of at most 8192 bytes per fill_buf after consume(len); rewind discards the buffer) is modelled as the explicit chunk "
+                      "list and cross-checked on every run by comparing the read sizes the adaptor observed with the ones the model was given.",
+        "assumptions": ["the reader is well behaved: Ok(0) means end of file, data does not change while it is read",
+                        "BufReader::fill_buf hands out exactly what one read call of the underlying reader returned (compared on every run)",
+                        "bytes are < 256 (single-byte sensitivity is stated for byte values)"],
+    },
+    "C12": {
+        "props_files": ["C12"],
+        "theorems": ["C12_native_inside", "C12_native_idempotent", "C12_every_operation"],
+        "components": ["path"],
+        "rule": "cases = batches of names for one root. N: real get_native_path on every '/'-joined sequence of up to 5 (thorough 6) "
+                "tokens of {a, b, ., .., '', /, <root>, <root>x} for root /vr/root, up to 4 tokens for the roots '/', '/r/', '//vr//root', "
+                "every concatenation of up to 6 (thorough 7) symbols of {a, ., /, <root>}, and random names (20% malformed: control bytes, "
+                "spaces, %, non-ASCII UTF-8); C: camino components of the name itself; F: every NativeFileStore operation (create/delete/"
+                "rename/append/replace file, create/remove/list directory, open read/write/append, get_size, process_request x 9 actions) "
+                "executed in a temporary sandbox T/{root, rootx, outside, top} on every sequence of up to 3 (thorough 4) tokens of "
+                "{'', ., .., f, d, o, outside, <root>, <root>x, s, new} plus hand-written deeper attacks, with a recursive snapshot of "
+                "everything outside root before/after; non-trivial = at least 2 operations; distinct = distinct op-list text",
+        "explanation": "Theorems over Model/Path.v for every byte string as name and every absolute normal root (structural induction over the "
+                       "string / component list); model tied to filestore.rs and to camino/std::path by differential execution (native path "
+                       "strings and component lists compared); oracle on the implementation alone: the returned native path, resolved on the raw "
+                       "string, must lie below the root, and no operation may create, change, remove or reveal anything outside root in the sandbox.",
+        "level_text": "Full proof on the model (lexical; symbolic links excluded by assumption): for every absolute, already-normal root and every "
+                      "name whatsoever, get_native_path returns the root's components followed by plain names only (no '..' or '.' left), hence "
+                      "a path that resolves below the root; it is idempotent (string equality), so the double mapping inside process_request "
+                      "changes nothing; every path handed to std::fs by any of the operations has the property. The model of std::path "
+                      "(components, strip_prefix, push, pop) is tied to camino by exhaustive comparison over the property's alphabet. This is "
+                      "the right level because the property quantifies over all names and all operations of a pure string function.",
+        "level_note": "Trusted: Coq kernel; extraction; driver/harness printing; the Unix rules of std::path as modelled in Path.v (compared "
+                      "exhaustively on the alphabet, not proved); lexical resolution as the meaning of a path (no symbolic links inside or "
+                      "leading to the root). A relative or empty root is outside the theorem's hypothesis (such a store has no well-defined inside).",
+        "assumptions": ["the filestore root is absolute and already normal ('/' followed by plain names)",
+                        "no symbolic links: the kernel resolves '..' lexically",
+                        "std::path/camino component rules are as modelled (compared on every run)"],
+    },
+    "C16": {
+        "props_files": ["C16"],
+        "theorems": ["C16_own_bytes_only", "C16_history_independent", "C16_buffer_size_kept", "C16_truncated_rejected"],
+        "components": ["udp"],
+        "rule": "cases = histories of datagrams sent over loopback UDP to ONE real UdpTransport (one receive buffer): for every PDU of a "
+                "corpus (EOF, Finished with/without filestore responses, ACK, Metadata with TLVs, NAK, Prompt, KeepAlive, FileData "
+                "unsegmented/segmented/empty; CRC on/off; small/large file flag) the PDU itself followed by EVERY truncation length of it; a long "
+                "datagram (1000/9000/60000 bytes) followed by every truncation length of another PDU (thorough: every ordered pair of the corpus); "
+                "random histories with 20% malformed datagrams (garbage, trailing junk, flipped bits); non-trivial = at least 2 datagrams; "
+                "distinct = distinct op-list text",
+        "explanation": "Theorems over Model/Udp.v for every decoder (the codec is a universally quantified function), every buffer content and "
+                       "every sequence of datagrams of at most buffer size; model tied to transport.rs by running the extracted receive-buffer "
+                       "model, instantiated with the real decoder's answers on isolated byte strings, against the real UdpTransport::receive on "
+                       "127.0.0.1; oracle on the implementation alone: each datagram must decode exactly as its own bytes do in isolation, a "
+                       "truncated valid PDU must be rejected.",
+        "level_text": "Full proof on the model: for any decoder and any earlier traffic, receive() returns the decoding of exactly the bytes of the "
+                      "current datagram (history independence by induction over the sequence of datagrams), and for any decoder that rejects "
+                      "strict prefixes a datagram truncated in flight is rejected rather than completed with stale bytes. The model is tied to "
+                      "transport.rs by differential execution over real loopback sockets with every truncation length of every corpus PDU after "
+                      "longer datagrams. This is the right level because the property quantifies over all histories of a three-line buffer discipline.",
+        "level_note": "Trusted: Coq kernel; extraction; driver/harness; the socket (a datagram of at most 65535 bytes is delivered whole into the "
+                      "first n bytes of the buffer, n returned by recv_from). That the real PDU decoder rejects strict prefixes of valid PDUs is "
+                      "observed on every run for the corpus, and is a codec property (C05/C06), not proved here.",
+        "assumptions": ["a UDP datagram has at most 65535 bytes and recv_from writes it to the beginning of the buffer and returns its length",
+                        "the decoder is a function of the bytes it is handed (no hidden state)"],
+    },
+    "C13": {
+        "props_files": ["C13"],
+        "theorems": ["C13_request_refines_spec", "C13_location_is_native_path", "C13_failed_request_changes_nothing", "C13_one_response_per_request_in_order",
+                     "C13_first_failure_stops_execution", "C13_all_executed_without_failure", "C13_cases_exhaustive",
+                     "C13_loop_total", "C13_tree_stays_tree"],
+        "components": ["fsmodel"],
+        "rule": "cases = batches of request lists / request histories on a real NativeFileStore in a temporary directory initialised to "
+                "{f1, f2, d1/, d1/f}. X: a whole request list carried by a Metadata PDU into a real RecvTransaction (unacknowledged, no file) "
+                "and executed by the receiver's own fail-the-rest loop when the EOF arrives; statuses read from the Finished indication, then "
+                "the sorted recursive listing with contents. Every list of up to 3 requests over 57 requests (6 single-name actions x "
+                "{f1, f2, d1, d1/f, missing, nested/missing} + 3 two-name actions x 7 pairs); thorough adds every list of 4 over 28 requests; "
+                "random lists of up to 30 requests (70% chosen to satisfy their precondition on the predicted state). Q: direct process_request "
+                "histories of up to 30 requests with status and listing after every request, 20% adversarial names ('', '.', '..', trailing "
+                "separators, a file used as a directory, absolute and root-prefixed names, spaces, non-ASCII); non-trivial = at least 2 "
+                "operations; distinct = distinct op-list text",
+        "explanation": "Theorems over Model/FsModel.v for every tree, every request and every request list (case analysis over the actions, "
+                       "induction over the list); model tied to filestore.rs and recv.rs by differential execution of the extracted model against "
+                       "the real NativeFileStore and the real RecvTransaction loop; oracle on the implementation alone: an independent Rust "
+                       "transcription of the Blue Book's precondition/effect table applied to the listing observed before each request.",
+        "level_text": "Full proof on the model, relative to the std::fs oracle: process_request returns exactly the status the declarative table "
+                      "assigns to the current tree (success iff the precondition holds, the specific failure code otherwise), a successful "
+                      "request changes exactly the locations the specification names, any other status leaves the tree unchanged; the loop returns "
+                      "one response per request in order, executes the requests up to and including the first failure, reports every later one "
+                      "NotPerformed without effect, and always terminates; trees stay well-formed. Tied to the code by bounded-exhaustive and "
+                      "random request lists run through the real receiver loop. This is the right level for the filestore clauses of the property, "
+                      "which quantify over all request sequences.",
+        "level_note": "NOT covered yet (to be added on top of this component with the Recv/Send transaction models): that the list runs only after "
+                      "a successful delivery and only once per transaction, and that the same responses reach the Finished PDU and the sending "
+                      "user. Trusted: Coq kernel; extraction; driver/harness; the behaviour of std::fs on a directory tree as modelled in "
+                      "FsModel.v (compared with the real filesystem on every run, not proved); path resolution per C12.",
+        "assumptions": ["std::fs behaves on the tree as modelled: no permission failures, no symbolic links, no concurrent modification, a failing "
+                        "call changes nothing",
+                        "the filestore root is absolute and already normal, and the directory containing it exists",
+                        "Deny on a missing target reports NotAllowed (pinned by the repository's own tests)"],
+    },
 }
